@@ -27,9 +27,17 @@ pub fn verif_str_to(s: &str, b: usize) -> (r: &str)
 { unimplemented!() }
 #[verifier::external_body]
 pub fn measure_text_width(s: &str) -> (r: usize) ensures r == width_spec(s@) { unimplemented!() }
+/// (R3) `ansi::truncate_str(s, w, tail)` is a `Cow<str>`; only `.to_string()` is taken of it
 #[verifier::external_body]
-pub fn verif_truncate_str_to_string(s: &str, display_width: usize, tail: &str) -> (r: String)
-    ensures r@ == truncate_spec(s@, display_width, tail@) { unimplemented!() }
+pub struct VTruncated { _p: u8 }
+impl VTruncated {
+    pub uninterp spec fn text(&self) -> Seq<char>;
+    #[verifier::external_body]
+    pub fn to_string(&self) -> (r: String) ensures r@ == self.text() { unimplemented!() }
+}
+#[verifier::external_body]
+pub fn verif_truncate_str(s: &str, display_width: usize, tail: &str) -> (r: VTruncated)
+    ensures r.text() == truncate_spec(s@, display_width, tail@) { unimplemented!() }
 #[verifier::external_body]
 pub fn strip_ansi_codes(s: &str) -> (r: String) ensures r@ == strip_spec(s@) { unimplemented!() }
 pub mod ansi { pub use crate::{measure_text_width, strip_ansi_codes}; }
@@ -93,7 +101,7 @@ impl<'a> StateMachine<'a> {
     //@rewrite <<<ansi::measure_text_width(&self.raw_line[cr_index + 1..])>>> => <<<ansi::measure_text_width(verif_str_from(&self.raw_line, cr_index + 1))>>>
     //@rewrite <<<&self.raw_line[..cr_index],>>> => <<<verif_str_to(&self.raw_line, cr_index),>>>
     //@rewrite <<<&self.raw_line[cr_index + 1..] )>>> => <<<verif_str_from(&self.raw_line, cr_index + 1) )>>>
-    //@rewrite <<<ansi::truncate_str( &self.raw_line, self.config.max_line_length, &self.config.truncation_symbol, ) .to_string()>>> => <<<verif_truncate_str_to_string(&self.raw_line, self.config.max_line_length, &self.config.truncation_symbol)>>>
+    //@rewrite <<<ansi::truncate_str(>>> => <<<verif_truncate_str(>>>
     //@before <<<if let Some(cr_index)>>>| proof { reveal_strlit(""); }
 
     // ---- ingest_line: the bytes of an input line; a line that is not valid UTF-8 is decoded lossily
